@@ -183,7 +183,7 @@ func cmpArr(res *tensor.Dense, want ref.Arr, what string, approx bool) *core.Fai
 	if res.Dtype() != want.DT.D {
 		return core.F("wrong-dtype", "dt", "%s: dtype %v expected %v", what, res.Dtype(), want.DT.D)
 	}
-	if !ref.EqInts(res.Shape(), want.Shape) && !(len(want.Shape) == 0 && ref.Prod(res.Shape()) == 1 && res.IsScalar()) {
+	if !ref.EqInts(res.Shape(), want.Shape) && !(len(want.Shape) == 0 && ref.Prod(res.Shape()) == 1 && (res.IsScalar() || len(res.Shape()) == 1)) {
 		return core.F("wrong-shape", "sh", "%s: shape %v expected %v", what, res.Shape(), want.Shape)
 	}
 	got, err := atlas.Logical(res)
